@@ -14,7 +14,24 @@ from . import core
 # ---------------------------------------------------------------------------------------------------------------------
 INVISIBLE_OPS = "\u2061\u2062\u2063\u2064"
 TAG_RX = re.compile(r"</?[A-Za-z][^<>]*>")          # anything shaped like an SSML / SAPI5 / XML tag
+# an XML character or entity reference: with no speech engine selected the output is plain text, so a reference in it is markup
+# (the five predefined names and numeric references: what an XML serialiser produces; '&b;' is an ampersand, a letter and a pause)
+ENTITY_RX = re.compile(r"&(#[0-9]+|#[xX][0-9A-Fa-f]+|lt|gt|amp|apos|quot);")
+ENTITY_START_RX = re.compile(r"&(#|lt|gt|amp|apos|quot)")
+TAG_START_RX = re.compile(r"<[A-Za-z/!?][^<]*>", re.S)
+ENGINE_NAMES = ("ssml", "sapi5")
 PAUSE_PUNCT = ",;."
+
+
+def no_engine(tts):
+    """is this value of the TTS preference 'no speech engine'?  Documented: none (any spelling); an unknown name selects no engine either"""
+    return str(tts).lower() not in ENGINE_NAMES
+
+
+def passed_through(text):
+    """what a token text looks like once NBSP and the invisible characters are handled the documented way (used to decide whether an INPUT
+    could reproduce a tag- or reference-shaped string by plain pass-through)"""
+    return "".join(" " if c == "\u00a0" else c for c in text if c not in INVISIBLE_OPS and c not in "\u200b\u200c\u200d\u2060\ufeff")
 # rule-internal words that are outside the statement of C05 (counted, never judged)
 INTERNAL_WORDS_RX = re.compile(r"TEMP[_ ]NAME|NAV_NODE_NOT_FOUND|\bUnknown\b")
 
@@ -24,9 +41,27 @@ def is_private_use(ch):
     return 0xE000 <= o <= 0xF8FF or o >= 0xF0000
 
 
+def squeezed(text):
+    """pass-through as the number rules do it: blanks and digit-block separators are deleted"""
+    return "".join(c for c in passed_through(text) if not c.isspace() and c not in ",.`\u202f\u2009")
+
+
+def _markup_shaped(t):
+    return TAG_START_RX.search(t) is not None or ENTITY_START_RX.search(t) is not None or "[[" in t or "]]" in t
+
+
 def has_forbidden_input(text):
-    """True when a generated token text leaves the quantifier of C05 (the statement is about what the LIBRARY adds)"""
-    return any(is_private_use(c) for c in text) or "[[" in text or "]]" in text or "<" in text
+    """True when a generated token text leaves the quantifier of C05 (the statement is about what the LIBRARY adds): private-use characters,
+    the navigation brackets, or text that is itself shaped like a tag or a character/entity reference (pass-through would reproduce it).
+    The XML special characters themselves (< > & ' ") are welcome."""
+    t = passed_through(text)
+    return any(is_private_use(c) for c in text) or _markup_shaped(t) or _markup_shaped(squeezed(text))
+
+
+def could_pass_through_markup(texts):
+    """expression level: could the token texts, passed through in order with words and pauses in between, form a tag- or reference-shaped
+    string?  ('<' directly followed by a name character in one token and a '>' in the same or a later one; the start of a reference)"""
+    return _markup_shaped(" ".join(passed_through(t) for t in texts)) or _markup_shaped(" ".join(squeezed(t) for t in texts))
 
 
 def strip_tags(s):
@@ -45,23 +80,26 @@ def scan(s, tts):
     inv = sorted(set(c for c in s if c in INVISIBLE_OPS))
     if inv:
         out.append(("invisible-operator", "+".join("U+%04X" % ord(c) for c in inv)))
-    if str(tts).lower() == "none":
+    if no_engine(tts):
         m = TAG_RX.search(s)
         if m:
             name = re.match(r"</?([A-Za-z][A-Za-z0-9:_-]*)", m.group(0)).group(1)
             out.append(("markup", "<%s>" % name.lower()))
+        m = ENTITY_RX.search(s)
+        if m:
+            out.append(("markup", "&%s;" % ("#" if m.group(1).startswith("#") else m.group(1).lower())))
     return out
 
 
 def is_empty_speech(s, tts):
     """no word and no pause punctuation at all"""
-    if str(tts).lower() != "none":
+    if not no_engine(tts):
         s = strip_tags(s)
     return s.strip() == ""
 
 
 def is_pause_only(s, tts):
-    if str(tts).lower() != "none":
+    if not no_engine(tts):
         s = strip_tags(s)
     t = s.strip()
     return t != "" and all(c in PAUSE_PUNCT or c.isspace() for c in t)
